@@ -106,7 +106,9 @@ def make_case(seed):
 
 def input_bytes(d, meta, seed):
     if meta.get('plain_stripped'):
-        return ('\n'.join('' if l == ' ' else l for l in d.lines()) + '\n').encode()
+        # (... followed by what a script prints after its diff: an empty line and a line of text are not lines of the hunk)
+        tail = '\n%s\n' % engine.item_rng(seed).choice(['2 files differ', 'done.', 'summary: ok']) if seed % 2 else ''
+        return ('\n'.join('' if l == ' ' else l for l in d.lines()) + '\n' + tail).encode()
     if not meta.get('raw_colored'):
         return d.text().encode()
     rng = engine.item_rng(engine.stable_hash((seed, 'c05-raw')))
@@ -199,6 +201,10 @@ def check_unified(d, meta, out, counters):
                 if k in '+ ':
                     nn += 1
                 pos += 1
+    while pos < n:
+        if infos[pos].kind == 'code':
+            return 'structure:extra-row', 'a row of code (with line numbers) beyond the last line of the last hunk', None, repr(infos[pos])
+        pos += 1
     return None
 
 
@@ -293,6 +299,8 @@ def check_sbs(d, meta, W, out, counters):
                     first = False
                     if p.truncated or not p.has_wrap:
                         break
+            if i < len(stream):
+                return 'structure:extra-row', 'the %s panel shows more rows than the hunk has lines for it' % ('left' if side == 0 else 'right'), None, stream[i][1].text()
     return None
 
 
